@@ -2,7 +2,7 @@
    standard-conforming multiplexer emits), and a worked example. *)
 From Coq Require Import List ZArith NArith Bool Lia.
 From Astisub Require Import Kit.Base Kit.Str Kit.GoMap Gen.TtxTables Model.TtxRow Model.Ttx Model.TtxSpec.
-From Astisub Require Import Proofs.TtxTables Proofs.TtxCodec Proofs.TtxSteps Proofs.TtxStream.
+From Astisub Require Import Proofs.TtxTables Proofs.TtxRowProofs Proofs.TtxCodec Proofs.TtxSteps Proofs.TtxStream.
 Import ListNotations.
 Open Scope N_scope.
 
@@ -46,6 +46,74 @@ Proof.
   replace (firstn 40 (map par_enc cells ++ extra)) with (map par_enc cells).
   - rewrite (map_cell0_par cells Hc). apply str_eqb_refl.
   - rewrite <- L40. rewrite firstn_app, Nat.sub_diag, firstn_all. cbn [firstn]. rewrite app_nil_r. reflexivity.
+Qed.
+
+(* ---- parity failures ---- *)
+(* a character byte with one bit flipped in transmission fails the parity check: it is stored as 0 *)
+Theorem flipped_bit_cell : forall ch k, ch < 128 -> k < 8 -> cell0 (N.lxor (par_enc ch) (2 ^ k)) = 0.
+Proof.
+  intros ch k Hc Hk.
+  assert (S : forallb (fun ch => forallb (fun k => cell0 (N.lxor (par_enc ch) (2 ^ k)) =? 0) (below 8)) (below 128) = true) by (vm_compute; reflexivity).
+  rewrite forallb_forall in S. specialize (S ch (below_in 128 ch Hc)). rewrite forallb_forall in S. specialize (S k (below_in 8 k Hk)).
+  apply N.eqb_eq. exact S.
+Qed.
+(* a transmitted cell: the character and, if the byte is damaged on the way, the bit that flips *)
+Definition sym_byte (x : N * option N) : N := match snd x with None => par_enc (fst x) | Some k => N.lxor (par_enc (fst x)) (2 ^ k) end.
+Definition sym_cell (x : N * option N) : N := match snd x with None => fst x | Some _ => 0 end.
+Definition sym_ok (x : N * option N) : bool := (fst x <? 128) && match snd x with None => true | Some k => k <? 8 end.
+Lemma map_cell0_sym syms : forallb sym_ok syms = true -> map cell0 (map sym_byte syms) = map sym_cell syms.
+Proof.
+  induction syms as [|[ch o] r IH]; intros H; [reflexivity|]. cbn [forallb] in H. apply andb_true_iff in H. destruct H as [Hx Hr].
+  cbn [map]. rewrite (IH Hr). f_equal. unfold sym_ok in Hx. cbn [fst snd] in Hx. apply andb_true_iff in Hx. destruct Hx as [Hc Hk]. apply N.ltb_lt in Hc.
+  unfold sym_byte, sym_cell. cbn [fst snd]. destruct o as [k|].
+  - apply N.ltb_lt in Hk. apply flipped_bit_cell; assumption.
+  - rewrite <- cell_is_spec. apply cell_par_enc. exact Hc.
+Qed.
+(* a row of the selected magazine with damaged bytes is "our row" with 0 in the damaged cells *)
+Theorem damaged_row_unit_is_ours : forall fl mag0 row syms extra, 1 <= mag0 <= 8 -> 1 <= row <= 25 ->
+  length syms = 40%nat -> forallb sym_ok syms = true ->
+  is_our_row mag0 row (map sym_cell syms) (3, enc_packet fl mag0 row (map sym_byte syms ++ extra)) = true.
+Proof.
+  intros fl mag0 row syms extra Hm Hr Hl Hs. unfold is_our_row.
+  rewrite (unit_addr_enc fl mag0 row _ (mag_addr_ok mag0 row Hm ltac:(lia))).
+  rewrite !N.eqb_refl. cbn [andb].
+  destruct (N.leb_spec 1 row); [|lia]. destruct (N.leb_spec row 25); [|lia]. cbn [andb].
+  assert (L40 : length (map sym_byte syms) = 40%nat) by (rewrite map_length; exact Hl).
+  assert (Hlen : Nat.ltb (length (map sym_byte syms ++ extra)) 40 = false) by (apply Nat.ltb_ge; rewrite app_length; lia).
+  rewrite Hlen. cbn [negb andb].
+  replace (firstn 40 (map sym_byte syms ++ extra)) with (map sym_byte syms).
+  - rewrite (map_cell0_sym syms Hs). apply str_eqb_refl.
+  - rewrite <- L40. rewrite firstn_app, Nat.sub_diag, firstn_all. cbn [firstn]. rewrite app_nil_r. reflexivity.
+Qed.
+
+(* a character cell of a boxed group that fails parity: the row reads as the same row with the group cut in two at that
+   cell and the attribute "black" in its place -- the cell's character appears in no run *)
+Theorem parity_error_in_text : forall (c : list str) pre boxes a cs x1 v x2 b e, length c = 96%nat ->
+  rowspec_ok (mkRowspec pre boxes (a ++ mkRseg cs (x1 ++ v :: x2) :: b) e) = true ->
+  let r := mkRowspec pre boxes (a ++ mkRseg cs (x1 ++ v :: x2) :: b) e in
+  let r' := mkRowspec pre boxes (a ++ mkRseg cs x1 :: mkRseg [0] x2 :: b) e in
+  exists l1 l2, row_cells r = l1 ++ v :: l2 /\ row_cells r' = l1 ++ 0 :: l2
+                /\ ttx_parse_row c (l1 ++ 0 :: l2) = Ok (row_runs c r').
+Proof.
+  intros c pre boxes a cs x1 v x2 b e Hc Hok r r'.
+  exists (pre ++ 11 :: repeat 11 boxes ++ flat_map (fun s => sg_codes s ++ sg_cells s) a ++ cs ++ x1),
+         (x2 ++ flat_map (fun s => sg_codes s ++ sg_cells s) b ++ match e with Some j => 10 :: j | None => [] end).
+  assert (E1 : row_cells r = (pre ++ 11 :: repeat 11 boxes ++ flat_map (fun s => sg_codes s ++ sg_cells s) a ++ cs ++ x1) ++ v ::
+                 (x2 ++ flat_map (fun s => sg_codes s ++ sg_cells s) b ++ match e with Some j => 10 :: j | None => [] end)).
+  { unfold row_cells, r. cbn [rw_pre rw_boxes rw_segs rw_end]. rewrite flat_map_app. cbn [flat_map sg_codes sg_cells].
+    repeat (rewrite <- app_assoc; cbn [app]). reflexivity. }
+  assert (E2 : row_cells r' = (pre ++ 11 :: repeat 11 boxes ++ flat_map (fun s => sg_codes s ++ sg_cells s) a ++ cs ++ x1) ++ 0 ::
+                 (x2 ++ flat_map (fun s => sg_codes s ++ sg_cells s) b ++ match e with Some j => 10 :: j | None => [] end)).
+  { unfold row_cells, r'. cbn [rw_pre rw_boxes rw_segs rw_end]. rewrite flat_map_app. cbn [flat_map sg_codes sg_cells].
+    repeat (rewrite <- app_assoc; cbn [app]). reflexivity. }
+  split; [exact E1|]. split; [exact E2|]. rewrite <- E2. apply (parse_row_encoded c Hc).
+  unfold r'. unfold rowspec_ok in *. cbn [rw_pre rw_segs rw_end] in *.
+  apply andb_true_iff in Hok. destruct Hok as [Hok He]. apply andb_true_iff in Hok. destruct Hok as [Hp Hs].
+  rewrite Hp, He. cbn [andb]. rewrite andb_true_r. unfold segs_ok in *. rewrite forallb_app in *. cbn [forallb sg_codes sg_cells] in *.
+  apply andb_true_iff in Hs. destruct Hs as [Ha Hs]. apply andb_true_iff in Hs. destruct Hs as [Hg Hb].
+  apply andb_true_iff in Hg. destruct Hg as [Hcs Hx]. rewrite forallb_app in Hx. cbn [forallb] in Hx.
+  apply andb_true_iff in Hx. destruct Hx as [Hx1 Hx2]. apply andb_true_iff in Hx2. destruct Hx2 as [_ Hx2].
+  rewrite Ha, Hcs, Hx1, Hx2, Hb. reflexivity.
 Qed.
 
 (* units that are not subtitle data units (stuffing 0xff, non-subtitle 0x02, ...) cannot matter *)
@@ -135,8 +203,13 @@ Definition pad40 (r : rowspec) : rowspec :=
 (* "  \x0b\x0bHi \x01[red]\x0a" and a row with a size code and national characters *)
 Definition ex_row1 : rowspec := pad40 (mkRowspec [32; 32] 1 [mkRseg [] [72; 105; 32]; mkRseg [1] [91; 114; 101; 100; 93]] (Some [])).
 Definition ex_row2 : rowspec := pad40 (mkRowspec [] 0 [mkRseg [13; 3] [35; 36; 64; 126]] (Some [122])).
+(* ex_row1 received with the byte of its 'i' damaged: "H", black, " " *)
+Definition ex_row1_damaged : rowspec :=
+  pad40 (mkRowspec [32; 32] 1 [mkRseg [] [72]; mkRseg [0] [32]; mkRseg [1] [91; 114; 101; 100; 93]] (Some [])).
+Definition ex_syms : list (N * option N) :=
+  map (fun ch => (ch, None)) (firstn 5 (row_cells ex_row1)) ++ [(105, Some 3)] ++ map (fun ch => (ch, None)) (skipn 6 (row_cells ex_row1)).
 Definition ex_sched : sched :=
-  mkSched 8 88 [mkInst 1000 4 [(20, ex_row1); (3, ex_row2)]; mkInst 3000 7 []; mkInst 4500 7 [(22, ex_row1)]].
+  mkSched 8 88 [mkInst 1000 4 [(20, ex_row1); (3, ex_row2)]; mkInst 3000 7 []; mkInst 4500 7 [(22, ex_row1_damaged)]].
 Definition ex_row_unit (row : N) (r : rowspec) : N * str := row_unit 231 8 row (row_cells r) [].
 Definition ex_mux : mux :=
   mkMux [(900%Z, hdr_unit 231 1 (ex_hdr 0 0 0 false)); (900%Z, (255, repeat 255 44))]
@@ -152,14 +225,18 @@ Definition ex_mux : mux :=
           mkImux (hdr_unit 231 8 (ex_hdr 8 8 7 false)) [] None;
           mkImux (hdr_unit 231 8 (ex_hdr 8 8 7 false))
                  [(4500%Z, (false, (3, 231 :: 39 :: skipn 2 (enc_packet 231 8 22 (enc_row (row_cells ex_row2))))));
-                  (4600%Z, (true, ex_row_unit 22 ex_row1))] None ].
+                  (4600%Z, (true, (3, enc_packet 231 8 22 (map sym_byte ex_syms))))] None ].
 Fixpoint chunk3 (evs : list tunit) (fuel : nat) : list pes :=
   match fuel, evs with
-  | S f, (t, u) :: (t2, u2) :: (t3, u3) :: r => if ((t =? t2) && (t2 =? t3))%Z then (t, 16, [u; u2; u3]) :: chunk3 r f else (t, 21, [u]) :: chunk3 ((t2, u2) :: (t3, u3) :: r) f
-  | S f, (t, u) :: r => (t, 31, [u]) :: chunk3 r f
+  | S f, (t, u) :: (t2, u2) :: (t3, u3) :: r => if ((t =? t2) && (t2 =? t3))%Z then PUnits t 16 [u; u2; u3] [] :: chunk3 r f else PUnits t 21 [u] [3; 44; 231] :: chunk3 ((t2, u2) :: (t3, u3) :: r) f
+  | S f, (t, u) :: r => PUnits t 31 [u] [] :: chunk3 r f
   | _, _ => []
   end.
-Definition ex_peses : list pes := chunk3 (events ex_sched ex_mux) 100 ++ [(5000%Z, 16, [])].
+(* with a packet without time and a packet with a foreign data identifier carrying our header, an empty payload that sets the
+   first presentation time, and a trailing packet that sets the last one *)
+Definition ex_peses : list pes :=
+  PInert 900 [] :: PNoTime (16 :: enc_unit (hdr_unit 231 8 (ex_hdr 8 8 4 false))) :: chunk3 (events ex_sched ex_mux) 100
+  ++ [PInert 4700 (32 :: enc_unit (hdr_unit 231 8 (ex_hdr 8 8 4 false))); PUnits 5000 16 [] [3]].
 
 Example ex_mux_ok : mux_ok ex_sched ex_mux = true. Proof. vm_compute. reflexivity. Qed.
 Example ex_pes_ok : forallb pes_ok ex_peses = true /\ flat_map pes_units ex_peses = events ex_sched ex_mux.
@@ -170,7 +247,7 @@ Proof. exact (stream_given_page ex_sched ex_mux ex_peses ex_mux_ok (proj1 ex_pes
 Example ex_cues_nonempty : length (cues_of ex_sched 900 5000) = 2%nat /\
   map (fun c => (c_st c, c_en c, map (map (fun r => tr_text r)) (c_lines c))) (cues_of ex_sched 900 5000)
   = [(100%Z, 2100%Z, [[[35;36;194;167;195;159]]; [[72;105]; [195;132;114;101;100;195;156]]]);
-     (3600%Z, 4100%Z, [[[72;105]; [194;171;114;101;100;194;187]]])].
+     (3600%Z, 4100%Z, [[[72]; [194;171;114;101;100;194;187]]])].
 Proof. split; vm_compute; reflexivity. Qed.
 Example ex_mux_auto_ok : mux_ok_auto ex_sched (mkMux [(900%Z, (255, repeat 255 44))] (mx_insts ex_mux)) = true.
 Proof. vm_compute. reflexivity. Qed.
